@@ -33,7 +33,7 @@ for name in c02_stages.ORDER:
                   "in": [{"src": 1}]}]
     for k in kinds:
       sid = len(srcs) + 1
-      srcs[str(sid)] = {"kind": k, "len": None}
+      srcs[str(sid)] = {"kind": k, "len": p["size"] if k == "wnd" else None}
       node_in.append({"src": sid})
     wl = {"srcs": srcs, "base": {"st": name, "p": p, "in": node_in},
           "fan": "none", "tails": [None]}
